@@ -9,6 +9,7 @@ from ..cfg import CFG, CNode, Edge, LocalDefs, path_text
 from ..index import AnalysisError, ClassInfo, Index
 from ..inventory import only_called_from, call_sites, recv_class, stores_to_attr
 from ..report import Ctx
+from ..stateflow import state_flow, store_of_field
 from .common import edge_state_set, enum_member, node_calls, nodes_calling
 
 EXPLANATION = (
@@ -401,6 +402,24 @@ def r14_2(ctx: Ctx) -> None:
         ctx.record("R14.2", ctx.key(rb, "restored file inherits a previously visible value"), rb.loc(node.ast), not bad,
                    f"every definition reaching the store reads a visible_health_status field ({len(srcs)} definition(s))" if not bad else
                    f"visible health of the restored file may come from {bad}: not a scanned value")
+        # the value must land on the *replacement* file: the receiver is looked up after the copy, not a stale local
+        copies = nodes_calling(g, ["copy_file"])
+        recv = tgt.value if isinstance(tgt, ast.Attribute) else None
+        fresh = False
+        why = ""
+        if recv is not None and copies:
+            dom = g.dominators()
+            after_copy = any(c.id in dom.get(node.id, set()) for c in copies)
+            if isinstance(recv, ast.Name):
+                rd = _reaching_defs(g, recv.id)[node.id]
+                fresh = bool(rd) and all(any(c.id in dom.get(i, set()) for c in copies) for i in rd)
+                why = f"`{recv.id}` is bound at line(s) {[g.nodes[i].lineno for i in rd]}, " + ("after" if fresh else "before") + " the copy"
+            else:
+                fresh = after_copy
+                why = f"`{unparse(recv)}` is evaluated at the store, " + ("after" if fresh else "before") + " the copy"
+            ctx.record("R14.2", ctx.key(rb, "the carried-over visible value lands on the replacement file"), rb.loc(node.ast), fresh,
+                       why if fresh else why + ": the remembered visible health is written to the old (deleted) file object, so the "
+                       "replacement shows its default visible health although nothing was scanned")
 
 
 # ===================================================================================================== R14.3
@@ -607,7 +626,29 @@ def r14_4(ctx: Ctx) -> None:
                "unconditional loop over self.folders calling scan()" if loops else "some folders may be skipped")
 
 
+def r14_5(ctx: Ctx) -> None:
+    ix = ctx.ix
+    ctx.rule("R14.5", "folder restore completion returns the folder to GOOD from every state it can be in at completion "
+                      "(RESTORING, or CORRUPT when corrupted again mid-restore) - frozen completion table")
+    f = ix.method("Folder._restoring_timestep")
+    g = CFG(f.node)
+    uni = set(ix.enum_members(ix.cls("FileSystemItemHealthStatus")))
+    flow = state_flow(g, "self", ["health_status"], uni, havoc_call=lambda c: call_name(c) in ("restore_file", "repair", "corrupt"))
+    stores = [n for n in g.nodes if store_of_field(n, "self", ["health_status"]) is not None]
+    if not stores:
+        raise AnalysisError("R14.5: Folder._restoring_timestep no longer stores health_status")
+    for n in stores:
+        m = enum_member(store_of_field(n, "self", ["health_status"]))
+        tgt = m[1] if m else "?"
+        srcs = set(flow[n.id])
+        need = {"RESTORING", "CORRUPT"}
+        ok = tgt == "GOOD" and need <= srcs
+        ctx.record("R14.5", ctx.key(f, "restore completion -> GOOD from RESTORING and CORRUPT"), f.loc(n.ast), ok,
+                   f"sources {sorted(srcs)} -> {tgt}" + ("" if ok else f"; a folder that is {sorted(need - srcs)} when its restore completes stays that way"))
+
+
 def check(ctx: Ctx) -> None:
+    r14_5(ctx)
     r14_1(ctx)
     r14_2(ctx)
     r14_3(ctx)
